@@ -65,7 +65,8 @@ class error_997_visitor(error_visitor.error_visitor):
         #ISA*00*          *00*          *ZZ*ENCOUNTER      *ZZ*00GR           *030425*1501*U*00401*000065350*0*T*:~
         self.isa_control_num = ('%s%s' % (time.strftime('%y%m%d'),
                                           time.strftime('%H%M')))[1:]
-        icvn = seg.get_value('ISA12')
+        # a 997 is a 4010 transaction, whatever the version of the last interchange of the input
+        icvn = '00401'
         isa_seg = pyx12.segment.Segment('ISA*00*          *00*          ',
                                         self.seg_term, self.ele_term, self.subele_term)
         isa_seg.append(self._echo(seg.get_value('ISA07'), 2))
@@ -74,7 +75,7 @@ class error_997_visitor(error_visitor.error_visitor):
         isa_seg.append(self._echo(seg.get_value('ISA06'), 15))
         isa_seg.append(time.strftime('%y%m%d'))  # Date
         isa_seg.append(time.strftime('%H%M'))  # Time
-        isa_seg.append(self._echo(seg.get_value('ISA11'), 1))
+        isa_seg.append('U')  # Interchange Control Standards Identifier
         isa_seg.append(icvn)
         isa_seg.append(self.isa_control_num)  # ISA Interchange Control Number
         isa_seg.append('0') # No need for TA1 response to 997
